@@ -838,6 +838,10 @@ func c12R5(c *Ctx) {
 		"(*middleware/resolver.Resolver).searchCache":     "self: one label shorter per step, or restart after removing the broken entry (checked below)",
 		"(*middleware/resolver.fatalResolverError).Error": "error wrapper chain (type-level): finite unwrap chain",
 	}
+	// the source gate of C17-R7 (exists only once the fix of F-C17-1 is in the tree, hence not a fixed row)
+	if c.P.FuncObj("middleware.(*Pipeline).AdmitsSource") != nil {
+		allowed["(*middleware.Pipeline).AdmitsSource"] = "type-level only: *Pipeline has the signature of SourceAdmitter.AdmitsSource but is no Handler, so it is never an element of the p.handlers it ranges over; one pass over the handler list"
+	}
 	used := map[string]bool{}
 	inBig := map[*ssa.Function]bool{}
 	for _, comp := range g.cyclicSCCs(nil) {
